@@ -20,7 +20,7 @@ func init() {
 			"(R1) every function that places rows into a table chosen with user-supplied relation targets registers those targets; (R2) every caller of pool-recycle tests the target flag of the recycled entity and, when set, runs the cleanup and clears the flag; " +
 			"(R3) free protocol: at every site that frees a table (sets its free flag) the operation removes the table from all four lookup containers — the archetype's active list, the per-column target index, the per-target table index (for every target of the table) and every cached filter; tables put on a free list are marked free, tables taken from it are recycled; " +
 			"(R4) every path that activates a table registers it with the archetype and the filter cache; (R5) relation component/target validity checks precede taking or creating the table; (R6) exact table lookup compares whole entities (id and generation); " +
-			"(R7) the per-column target index is indexed by column index only. Not decided: multi-step target-death histories; that the protocols compose.",
+			"(R7) the per-column target index is indexed by column index only; (R8) the target-validity check is unreachable from the target cleanup: after a batch removal the remaining targets of a table may be entities of the same batch that are still to be cleaned up, so validating them can only fail a valid call. Not decided: multi-step target-death histories; that the protocols compose.",
 		TrustedBase: []string{"go/types, go/cfg", "container purge summaries derived from loops over the lookup containers", "single-relation idiom: a table of an archetype with one relation has exactly one target"},
 		Rules: []Rule{
 			{ID: "C04/R1", Run: c04r1, Min: 5},
@@ -30,6 +30,7 @@ func init() {
 			{ID: "C04/R5", Run: c04r5, Min: 1},
 			{ID: "C04/R6", Run: c04r6, Min: 1},
 			{ID: "C04/R7", Run: c04r7, Min: 4},
+			{ID: "C04/R8", Run: c04r8, Min: 1},
 		},
 	})
 }
@@ -859,42 +860,19 @@ func c04r5(c *core.Ctx) {
 		return
 	}
 	// activation function: appends to storage.tables with a []relationID parameter
-	for _, f := range m.Funcs {
-		rp := relationIDsParam(f)
-		if rp == nil {
-			continue
-		}
-		appends := false
-		core.InspectNoLits(f.Body, func(x ast.Node) bool {
-			if as, ok := x.(*ast.AssignStmt); ok {
-				for _, s := range m.DirectStores(f, as) {
-					if s.Path.Last() == "storage.tables" && s.Kind == core.StoreAssign {
-						appends = true
-					}
-				}
-			}
-			return true
-		})
-		if !appends {
-			continue
-		}
-		// a loop over all relations calling both checks, positioned before the first table-set mutation
+	checkLoop := func(f *core.Func, rp *types.Var) (bool, token.Pos) {
 		var loopEnd token.Pos
 		both := false
 		core.InspectNoLits(f.Body, func(x ast.Node) bool {
-			var body *ast.BlockStmt
-			var ranged ast.Expr
-			switch l := x.(type) {
-			case *ast.RangeStmt:
-				body, ranged = l.Body, l.X
-			default:
+			l, ok := x.(*ast.RangeStmt)
+			if !ok {
 				return true
 			}
-			if id, ok := ast.Unparen(ranged).(*ast.Ident); !ok || m.Info.ObjectOf(id) != rp {
+			if id, ok := ast.Unparen(l.X).(*ast.Ident); !ok || m.Info.ObjectOf(id) != rp {
 				return true
 			}
 			t, cc, cond := false, false, false
-			ast.Inspect(body, func(y ast.Node) bool {
+			ast.Inspect(l.Body, func(y ast.Node) bool {
 				switch z := y.(type) {
 				case *ast.CallExpr:
 					if k, cal, _ := m.Callee(z); k == core.CallStatic {
@@ -916,9 +894,64 @@ func c04r5(c *core.Ctx) {
 			}
 			return true
 		})
+		return both, loopEnd
+	}
+	cleanup := cleanupRole(c)
+	for _, f := range m.Funcs {
+		rp := relationIDsParam(f)
+		if rp == nil {
+			continue
+		}
+		appends := false
+		core.InspectNoLits(f.Body, func(x ast.Node) bool {
+			if as, ok := x.(*ast.AssignStmt); ok {
+				for _, s := range m.DirectStores(f, as) {
+					if s.Path.Last() == "storage.tables" && s.Kind == core.StoreAssign {
+						appends = true
+					}
+				}
+			}
+			return true
+		})
+		if !appends {
+			continue
+		}
 		subject := f.Name + ": relation validity"
+		both, loopEnd := checkLoop(f, rp)
 		if !both {
-			c.Violation("C04/R5", subject, c.At(f.Pos()), f.Name+": does not check relation component and target of every supplied relation (unconditionally, in a loop over all of them) before creating the table")
+			// an unchecked activation function: every caller must be the checking wrapper (check loop over the slice it passes,
+			// before the call) or the target cleanup
+			okAll, n := true, 0
+			var badCaller string
+			for _, cs := range m.CallSites() {
+				if cs.Callee != f {
+					continue
+				}
+				n++
+				if cleanup[cs.Caller] {
+					c.OK("C04/R5", cs.Caller.Name+" -> "+f.Name, c.At(cs.Call.Pos()), "target cleanup: relations are the table's own targets (rule R8)")
+					continue
+				}
+				crp := relationIDsParam(cs.Caller)
+				passes := false
+				for _, a := range cs.Call.Args {
+					if id, ok := ast.Unparen(a).(*ast.Ident); ok && crp != nil && m.Info.ObjectOf(id) == crp {
+						passes = true
+					}
+				}
+				cb, cEnd := false, token.NoPos
+				if crp != nil {
+					cb, cEnd = checkLoop(cs.Caller, crp)
+				}
+				if passes && cb && cEnd < cs.Call.Pos() {
+					c.OK("C04/R5", cs.Caller.Name+" -> "+f.Name, c.At(cs.Call.Pos()), "component and target of every relation are checked before the table is taken or created")
+				} else {
+					okAll, badCaller = false, cs.Caller.Name
+				}
+			}
+			if !okAll || n == 0 {
+				c.Violation("C04/R5", subject, c.At(f.Pos()), fmt.Sprintf("%s creates tables without checking relation component and target of every supplied relation, and its caller %s does not do so either", f.Name, badCaller))
+			}
 			continue
 		}
 		// first effect: take from free list / append / recycle must come after the loop
@@ -950,6 +983,98 @@ func c04r5(c *core.Ctx) {
 			c.Violation("C04/R5", subject, c.At(firstEffect), f.Name+": a free table is taken or a table is stored before the relation checks; a rejected call would leave the table set changed")
 		} else {
 			c.OK("C04/R5", subject, c.At(f.Pos()), "component and target of every relation are checked before a free table is taken or a new one appended")
+		}
+	}
+}
+
+// cleanupRole: the functions invoked for an entity under a test of its target flag (and what only they reach is not needed here).
+func cleanupRole(c *core.Ctx) map[*core.Func]bool {
+	m := c.M
+	out := map[*core.Func]bool{}
+	for _, f := range m.AllFuncs() {
+		core.InspectNoLits(f.Body, func(n ast.Node) bool {
+			// direct: if isTarget[e.id] { cleanup(e) }
+			if is, ok := n.(*ast.IfStmt); ok {
+				if ix, ok := ast.Unparen(is.Cond).(*ast.IndexExpr); ok && fieldKeyOf(m, ix.X) == "storage.isTarget" {
+					for _, st := range is.Body.List {
+						if es, ok := st.(*ast.ExprStmt); ok {
+							if call, ok := es.X.(*ast.CallExpr); ok && len(call.Args) == 1 {
+								if k, cal, _ := m.Callee(call); k == core.CallStatic && core.NamedName(m.Info.TypeOf(call.Args[0])) == "Entity" {
+									out[cal] = true
+								}
+							}
+						}
+					}
+				}
+			}
+			return true
+		})
+	}
+	return out
+}
+
+// c04r8: the relation-target validity check is unreachable from the target cleanup.
+func c04r8(c *core.Ctx) {
+	a := GetAnchors(c)
+	m := c.M
+	cleanup := cleanupRole(c)
+	if len(cleanup) == 0 {
+		c.Undecide("C04/R8", "cleanup role", "no function is called under a test of the target flag")
+		return
+	}
+	isCheck := func(f *core.Func) bool {
+		if f.Sig == nil || f.Sig.Params().Len() != 1 || core.NamedName(f.Sig.Params().At(0).Type()) != "Entity" || f.Sig.Results().Len() != 0 || len(f.Body.List) != 1 {
+			return false
+		}
+		alive, panics := false, false
+		core.InspectNoLits(f.Body, func(n ast.Node) bool {
+			if call, ok := n.(*ast.CallExpr); ok {
+				if k, cal, _ := m.Callee(call); k == core.CallStatic && a.AliveTest[cal] {
+					alive = true
+				}
+				if m.IsBuiltin(call, "panic") {
+					panics = true
+				}
+			}
+			return true
+		})
+		return alive && panics
+	}
+	for f := range cleanup {
+		var path []string
+		seen := map[*core.Func]bool{}
+		var visit func(g *core.Func, chain []string) bool
+		visit = func(g *core.Func, chain []string) bool {
+			if seen[g] {
+				return false
+			}
+			seen[g] = true
+			found := false
+			core.InspectNoLits(g.Body, func(n ast.Node) bool {
+				if found {
+					return false
+				}
+				if call, ok := n.(*ast.CallExpr); ok {
+					if k, cal, _ := m.Callee(call); k == core.CallStatic {
+						if isCheck(cal) {
+							path = append(append([]string{}, chain...), g.Name, cal.Name)
+							found = true
+							return false
+						}
+						if visit(cal, append(chain, g.Name)) {
+							found = true
+							return false
+						}
+					}
+				}
+				return true
+			})
+			return found
+		}
+		if visit(f, nil) {
+			c.Violation("C04/R8", f.Name, c.At(f.Pos()), fmt.Sprintf("the target cleanup %s reaches the relation-target validity check (%s); when several targets of one table are removed in the same batch, the not-yet-cleaned ones are dead and the valid removal panics", f.Name, strings.Join(path, " -> ")), "via "+strings.Join(path, " -> "))
+		} else {
+			c.OK("C04/R8", f.Name, c.At(f.Pos()), fmt.Sprintf("no target-validity check is reachable from the target cleanup (%d functions searched)", len(seen)))
 		}
 	}
 }
